@@ -321,6 +321,8 @@ EXTRA = {
            "log, the <=1-deviation pair space with protocol_nr / port_nr on, and entries modified after "
            "construction through the setters of their field objects (19 setter sequences x 3 entries x 15 "
            "partners, oracle = what the entry renders now).",
+    "C08": " Write-back histories also run in 'held' mode: the three views are read once and the very "
+           "same objects are assigned repeatedly; the assigned objects must stay unchanged.",
     "C10": " Depth-2 shapes (a group inside a group, built with the list methods) included.",
     "C12": " The same sequences given as items=[...] lists and as sections of a configuration (blank / TAB "
            "indentation) through acls() / addrgroups().",
@@ -333,7 +335,8 @@ EXTRA = {
            "source/destination, AceGroup, Acl flat/grouped/standard, AddressAg, AddrGroup text and items, "
            "acls/aces/addrgroups incl. attached group members) for limits {0,1,2,4,16,17,20,30} x masks "
            "needing {0,1,2,3,5,17,18} bits: accepted iff k <= limit. Address histories also attach "
-           "group members and re-point the address.",
+           "group members and re-point the address; 'blind' histories read nothing between the steps; "
+           "the caller edits returned lists.",
     "C06": " Also: every port number that has a name in any table, and every name, on source and "
            "destination side through Ace / AceGroup / Acl on asa, ios (4 versions) and nxos (4 versions), "
            "names and numbers.",
